@@ -13,6 +13,7 @@
 //	probe-bind     first start delayed before its unlink (after probe, history open, first status); second start inside
 //	bind-first     first start delayed before its bind; second start binds first
 //	save           first start delayed inside its locked section; the DAG definition is saved (real UpdateSpec); second start after the save
+//	accept-error   first start with EMFILE injected into its first accept4; status requests and a second start afterwards
 //	late-unlink    first start with every unlinkat delayed; second start after its shutdown unlink; third after its exit
 //	sweep-<ms>     second start <ms> after the first, no injection
 package main
@@ -189,7 +190,7 @@ func (s *Scenario) launchP(kind, inject, reqid, path string) *Proc {
 	p.straceF = filepath.Join(s.dir, fmt.Sprintf("strace-%d.txt", i))
 	s.Procs = append(s.Procs, p)
 	s.mu.Unlock()
-	args := []string{"-f", "-ttt", "-T", "-e", "trace=execve,flock,connect,bind,unlinkat", "-o", p.straceF}
+	args := []string{"-f", "-ttt", "-T", "-e", "trace=execve,flock,connect,bind,unlinkat,accept4", "-o", p.straceF}
 	if inject != "" {
 		args = append(args, "-e", "inject="+inject)
 	}
@@ -638,6 +639,21 @@ func scnSave(s *Scenario, delayUs int) {
 	}
 }
 
+// one transient failure of the first run's accept (EMFILE injected into its first accept4 of every thread): the run must keep
+// its status socket - the endpoint still answers and a second start is still refused
+func scnAcceptError(s *Scenario) {
+	p0 := s.launch("start", "accept4:error=EMFILE:when=1", "")
+	if !waitUntil(15*time.Second, func() bool { return s.markerHas("a", p0.Tag) }) {
+		s.Infra = "first run never started its steps"
+		return
+	}
+	s.probe("first-connection") // its accept fails
+	time.Sleep(50 * time.Millisecond)
+	s.probe("second-connection")
+	s.launchWait("start", "", "")
+	s.probe("after-second-start")
+}
+
 func scnBindFirst(s *Scenario, delayUs int) {
 	s.launch("start", fmt.Sprintf("bind:delay_enter=%d:when=1", delayUs), "")
 	if !waitUntil(15*time.Second, func() bool { return len(s.histFiles()) >= 1 }) {
@@ -705,6 +721,7 @@ func main() {
 		add("probe-bind", D, func(s *Scenario) { scnProbeBind(s, D) })
 		add("bind-first", D, func(s *Scenario) { scnBindFirst(s, D) })
 		add("save", D, func(s *Scenario) { scnSave(s, D) })
+		add("accept-error", 0, scnAcceptError)
 		add("late-unlink", 600000, func(s *Scenario) { scnLateUnlink(s, 600000) })
 	}
 	offs := []int{0, 3, 40, 600, 1700, 2080}
